@@ -959,7 +959,8 @@ func (tx *Transaction) WriteRequestBody(b []byte) (*types.Interruption, int, err
 		}
 
 		if tx.WAF.RequestBodyLimitAction == types.BodyLimitActionProcessPartial {
-			writingBytes = tx.RequestBodyLimit - tx.requestBodyBuffer.length
+			// ctl:requestBodyLimit may have lowered the limit below what is already buffered
+			writingBytes = max(tx.RequestBodyLimit-tx.requestBodyBuffer.length, 0)
 			runProcessRequestBody = true
 		}
 	}
@@ -1229,7 +1230,8 @@ func (tx *Transaction) WriteResponseBody(b []byte) (*types.Interruption, int, er
 		}
 
 		if tx.WAF.ResponseBodyLimitAction == types.BodyLimitActionProcessPartial {
-			writingBytes = tx.ResponseBodyLimit - tx.responseBodyBuffer.length
+			// ctl:responseBodyLimit may have lowered the limit below what is already buffered
+			writingBytes = max(tx.ResponseBodyLimit-tx.responseBodyBuffer.length, 0)
 			runProcessResponseBody = true
 		}
 	}
